@@ -1,6 +1,7 @@
 package main
 
 import (
+	"strings"
 	"bytes"
 	crand "crypto/rand"
 	"encoding/binary"
@@ -291,6 +292,13 @@ func (e *env) openCaseX(base baseFile, origHdr []byte, ctSame bool, file []byte,
 	if len(file) >= 24 {
 		t, m := params(file)
 		shape = fmt.Sprintf("hdr=%v/ct=%v/pw=%v/spec=%v", bytes.Equal(hdr, origHdr), ctSame, pwSame, specAccept(t, m))
+	}
+	if gen == "intact" && strings.HasPrefix(base.name, "api-") {
+		// a file exactly as the wallet API wrote it (its own choice of key-derivation parameters), opened with its password
+		e.sink.Add(fmt.Sprintf("CApi %s %d %d", coqgen.PackBytes(hdr), len(file), cls),
+			fmt.Sprintf("api/%s/%s", base.name, []string{"ok-same", "ok-different", "err", "panic", "crash", "hang"}[cls]),
+			map[string]any{"kind": "api-written file", "base": base.name, "header": hex.EncodeToString(hdr), "password": pass,
+				"outcome": []string{"ok-same-key", "ok-different-key", "err", "panic", "process-died", "no-answer"}[cls], "detail": msg, "run": where})
 	}
 	e.sink.Add(fmt.Sprintf("CFile %s %d %s %s %s %d", coqgen.PackBytes(hdr), len(file), coqgen.PackBytes(origHdr), coqgen.Bool(ctSame), coqgen.Bool(pwSame), cls),
 		fmt.Sprintf("file/%s/%s/%s/%s", base.name, gen, shape, []string{"ok-same", "ok-different", "err", "panic", "crash", "hang"}[cls]),
